@@ -354,6 +354,9 @@ class Filt:
 
     def __imul__(s, o):
         assert isinstance(o, ExpArr) and len(o.c) == s.n
+        if s.dtype != 'c16':
+            # NumPy: in-place multiplication of a real (or narrower complex) array by a complex128 array cannot be cast back
+            raise TypeError("Cannot cast ufunc 'multiply' output from dtype('complex128') to dtype('%s') with casting rule 'same_kind'" % s.dtype)
         s.vals = [('f', k, o.c[k]) for k in range(s.n)]
         s.written = True
         return s
